@@ -838,8 +838,8 @@ impl Enumerate for ChainIterator {
   }
 
   fn size_hint(&self) -> Option<usize> {
-    self.iters.iter().try_fold(0, |acc, current| {
-      current.size_hint().map(|current| acc + current)
+    self.iters.iter().try_fold(0usize, |acc, current| {
+      current.size_hint().map(|current| acc.saturating_add(current))
     })
   }
 
